@@ -178,6 +178,29 @@ def extract():
     m = expect("c07.conv.max_input_bits", rel, t, r"debug_assert!\(input_shares\.iter\(\)\.count\(\) < \(BITS - (\d+)\)\);")
     conv_slack = int(m.group(1)) if m else 0
 
+    # ---- eval_dy_prf
+    rel = "protocol/ipa_prf/prf_eval.rs"
+    t = read(rel)
+    expect("c07.prf.y_is_x_plus_k", rel, t, r"let y = \(x \+ key\.expand\(\)\)\s*\.upgrade\(ctx\.narrow\(&Step::UpgradeY\), record_id\)")
+    expect("c07.prf.mask_from_prss", rel, t,
+           r"let r: AdditiveShare<Fp25519, N> = ctx\.narrow\(&Step::GenRandomMask\)\.prss\(\)\.generate\(record_id\);.*?let sh_gr = AdditiveShare::<RP25519, N>::from\(r\.clone\(\)\);")
+    expect("c07.prf.z_is_y_times_r", rel, t,
+           r"let y = y\s*\.multiply\(&r, ctx\.narrow\(&Step::MultMaskWithPRFInput\), record_id\)")
+    expect("c07.prf.reveals", rel, t,
+           r"reveal\(ctx\.narrow\(&Step::RevealR\), record_id, &sh_gr\),\s*reveal\(ctx\.narrow\(&Step::Revealz\), record_id, &y\),")
+    expect("c07.prf.output", rel, t,
+           r"let inv_z = crate::ff::ec_prime_field::batch_invert::<N>\(&z\);\s*Ok\(zip\(gr, inv_z\)\s*\.map\(\|\(gr, inv_z\)\| u64::from\(gr \* inv_z\)\)")
+    expect("c07.prf.point_share_from_scalar", rel, t, r"value\.transform\(RP25519::from\)")
+    rel = "ff/ec_prime_field.rs"
+    t = read(rel)
+    expect("c07.prf.batch_invert_is_dalek", rel, t, r"Scalar::batch_invert\(&mut inverted\);")
+    expect("c07.prf.invert_asserts_nonzero", rel, t, r"pub fn invert\(&self\) -> Fp25519 \{\s*assert_ne!\(\*self, Fp25519::ZERO\);")
+    rel = "ff/curve_points.rs"
+    t = read(rel)
+    expect("c07.prf.point_from_scalar", rel, t, r"impl From<Fp25519> for RP25519 \{\s*fn from\(s: Fp25519\) -> Self \{\s*Self\(\(RistrettoPoint::mul_base\(&s\.into\(\)\)\)\.into\(\)\)")
+    expect("c07.prf.point_to_u64", rel, t,
+           r"let hk = Hkdf::<Sha256>::new\(None, s\.0\.as_point\(\)\.compress\(\)\.as_bytes\(\)\);\s*let mut okm = <\$u_type>::MIN\.to_le_bytes\(\);.*?hk\.expand\(&\[\], &mut okm\)\.unwrap\(\);\s*<\$u_type>::from_le_bytes\(okm\)")
+
     # ---- vectorisation widths
     rel = "secret_sharing/vector/impls.rs"
     t = read(rel)
